@@ -32,6 +32,7 @@ type Server struct {
 	settingsMu            sync.RWMutex
 	supportsConfiguration bool
 	payeeTemplatesCache   sync.Map // map[protocol.DocumentURI]map[string][]analyzer.PostingTemplate
+	publishMu             sync.Mutex
 }
 
 func NewServer() *Server {
@@ -268,6 +269,14 @@ func (s *Server) publishDiagnostics(ctx context.Context, docURI protocol.Documen
 			Source:   "hledger-lsp",
 			Message:  err.Message,
 		})
+	}
+
+	// Analyses of successive versions run concurrently; a superseded version must
+	// not publish after (and thereby overwrite) the diagnostics of a newer one.
+	s.publishMu.Lock()
+	defer s.publishMu.Unlock()
+	if current, ok := s.GetDocument(docURI); ok && current != content {
+		return
 	}
 
 	_ = s.client.PublishDiagnostics(ctx, &protocol.PublishDiagnosticsParams{
